@@ -50,6 +50,8 @@ def valid_cases(cv, rng, quick):
         if rng.random() < 0.25:
             x, y = rng.choice([(0, y), (x, 0), (0, 0), (1, 1)])
         out.append("g1_is_valid %s 0 xy%x,%x%s" % (c, x, y, rep1(cv, anysys(), rng)))
+    for (x, y) in [(0, 0), (1, 0), (2, 0), (rng.randrange(cv.p), 0), (0, 1), (0, 2)]:       # degenerate coordinates, affine
+        out.append("g1_is_valid %s 0 xy%x,%x" % (c, x, y))
     for sd in seeds:
         out.append("g1_is_valid %s 0 c%x%s" % (c, sd, rep1(cv, anysys(), rng)))
         out.append("g1_is_valid %s 0 r%x%s" % (c, sd + 2, rep1(cv, anysys(), rng)))
